@@ -219,6 +219,12 @@ func renderC16(q *refsQuery) string {
 			e = "SUBSTRING(" + p + "host " + K("FROM") + " 1 FOR 2)"
 		case "trim":
 			e = "TRIM(BOTH 'h' " + K("FROM") + " " + p + "host)"
+		case "substring_of_trim":
+			e = "SUBSTRING(TRIM(" + p + "host) " + K("FROM") + " 1 FOR 2)"
+		case "trim_nested_before":
+			e = "TRIM(BOTH SUBSTRING(" + p + "host " + K("FROM") + " 1 FOR 1) " + K("FROM") + " " + p + "host)"
+		case "trim_of_substring":
+			e = "TRIM(BOTH 'h' " + K("FROM") + " SUBSTRING(" + p + "host " + K("FROM") + " 1 FOR 3))"
 		default:
 			return ""
 		}
@@ -233,7 +239,10 @@ func renderC16(q *refsQuery) string {
 	}
 	decoy := func(p, lead string) string {
 		if q.Decoy == "string" {
-			return " " + K(lead) + " " + p + "host <> 'x FROM mem y'"
+			return " " + K(lead) + " " + p + "host <> 'x from mem y'"
+		}
+		if q.Decoy == "string_join" {
+			return " " + K(lead) + " " + p + "host <> 'x join mem y'"
 		}
 		return ""
 	}
